@@ -531,6 +531,11 @@ class ReObj:
 
         def call(it_, args, kw, n, target=target):
             if not all(isinstance(x, K) for x in args) or not all(isinstance(x, K) for x in kw.values()):
+                import re as _re
+                if isinstance(self.obj, _re.Pattern) and a in ('fullmatch', 'match') and len(args) == 1 and not kw:
+                    r = re_on_base64(it_, self.obj, a, args[0], n)
+                    if r is not None:
+                        return r
                 raise Fail(f'regular expression applied to a symbolic value ({a})')
             try:
                 return wrap_re(target(*[x.v for x in args], **{k: x.v for k, x in kw.items()}))
@@ -545,6 +550,153 @@ class ReObj:
             except (IndexError, TypeError) as e:
                 raise RaiseEx(type(e).__name__, str(e)[:60])
         raise Fail('match[...] with a symbolic index')
+
+
+_B64_STD = 'ABCDEFGHIJKLMNOPQRSTUVWXYZabcdefghijklmnopqrstuvwxyz0123456789+/'
+_B64_URL = _B64_STD[:-2] + '-_'
+
+
+def re_on_base64(it, pat, method, subject, node):
+    """pattern.fullmatch / match on the base64 text of a byte layout (Rope): decided per position from the character classes of the
+    pattern when the pattern is a sequence of fixed-width character classes or one repeated class.  A position whose three source
+    bytes are opaque can hold any character of the alphabet, so a class that lacks part of the alphabet there leaves the match
+    undecided (both outcomes exist for some input) and the path forks.  -> K(match-or-None surrogate) / None if not in this fragment."""
+    import re as _re
+    try:
+        import re._parser as sre
+        import re._constants as C
+    except ImportError:      # python < 3.11
+        import sre_parse as sre
+        import sre_constants as C
+    from .rope import Rope
+    v = subject
+    if isinstance(v, Term) and v.op == 'decode':
+        v = v.a[0]
+    if hasattr(v, 'payload') and hasattr(v, 'urlsafe'):       # a rule module's own base64-text abstraction
+        alpha = _B64_URL if v.urlsafe else _B64_STD
+        rope = Rope.of(it, v.payload)
+    elif isinstance(v, Term) and v.op in ('b64encode', 'urlsafe_b64encode'):
+        alpha = _B64_STD if v.op == 'b64encode' else _B64_URL
+        rope = Rope.of(it, v.a[0])
+    else:
+        return None
+    if rope is None:
+        return None
+    opaque = []
+    for val, nb in rope.parts:
+        opaque += [not isinstance(val, K)] * nb if not isinstance(val, K) else [False] * nb
+        # only a plain unknown (Sym) is unconstrained; a Term (a checksum of the other bytes, ...) is unknown but not free
+        if not isinstance(val, K) and not isinstance(val, Sym):
+            opaque[-nb:] = [None] * nb
+    nbytes = len(opaque)
+    L = 4 * ((nbytes + 2) // 3)
+    npad = (3 - nbytes % 3) % 3
+    # per position: 'any' (every alphabet character occurs for some input), 'pad', or 'some' (an unknown subset of the alphabet)
+    kind = []
+    for p in range(L):
+        g, j = divmod(p, 4)
+        src = {0: (0,), 1: (0, 1), 2: (1, 2), 3: (2,)}[j]
+        idx = [3 * g + k for k in src]
+        if p >= L - npad:
+            kind.append('pad')
+        elif all(i < nbytes and opaque[i] is True for i in idx):
+            kind.append('any')
+        else:
+            kind.append('some')
+    # the pattern: a sequence of single-character classes with repeat counts
+    try:
+        tree = list(sre.parse(pat.pattern, pat.flags))
+    except Exception:
+        return None
+    elems = []
+    for op, av in tree:
+        if op is C.AT:
+            if av in (C.AT_BEGINNING, C.AT_BEGINNING_STRING, C.AT_END, C.AT_END_STRING):
+                continue
+            return None
+        lo = hi = 1
+        if op in (C.MAX_REPEAT, C.MIN_REPEAT):
+            lo, hi, sub = av
+            sub = list(sub)
+            if len(sub) != 1:
+                return None
+            op, av = sub[0]
+        if op not in (C.IN, C.LITERAL, C.ANY, C.NOT_LITERAL):
+            return None
+        one = _re.compile(_unparse_class(op, av, C), pat.flags & ~_re.VERBOSE)
+        elems.append((one, lo, hi if hi is not C.MAXREPEAT else None))
+    if not elems:
+        return None
+    variable = [e for e in elems if e[1] != e[2]]
+    if variable and len(elems) > 1:
+        return None
+    if variable:
+        one, lo, hi = elems[0]
+        if L < lo or (method == 'fullmatch' and hi is not None and L > hi):
+            return K(None)
+        span = L if hi is None else min(L, hi)
+        classes = [one] * span
+    else:
+        classes = [e[0] for e in elems for _ in range(e[1])]
+        if len(classes) > L or (method == 'fullmatch' and len(classes) != L):
+            return K(None)
+    verdict = True
+    for p, one in enumerate(classes):
+        chars = '=' if kind[p] == 'pad' else alpha
+        ok = [bool(one.fullmatch(c)) for c in chars]
+        if all(ok):
+            continue
+        if not any(ok):
+            return K(None)
+        if kind[p] == 'any':
+            verdict = None
+        elif verdict is True:
+            verdict = 'unknown'
+    if verdict is True:
+        return ReObj(_SymMatch(subject))
+    if verdict is None:
+        c = Cond(('re', pat.pattern, method, repr(it.vkey(subject))), True, f're {pat.pattern!r} matches the base64 text')
+        return ReObj(_SymMatch(subject)) if it.truth(c, node) else K(None)
+    return None
+
+
+def _unparse_class(op, av, C):
+    """a one-character pattern equivalent to the parsed class element"""
+    def lit(c):
+        ch = chr(c)
+        return '\\' + ch if not ch.isalnum() else ch
+    if op is C.ANY:
+        return '.'
+    if op is C.LITERAL:
+        return lit(av)
+    if op is C.NOT_LITERAL:
+        return '[^' + lit(av) + ']'
+    out = '['
+    for k, v in av:
+        if k is C.NEGATE:
+            out += '^'
+        elif k is C.LITERAL:
+            out += lit(v)
+        elif k is C.RANGE:
+            out += lit(v[0]) + '-' + lit(v[1])
+        elif k is C.CATEGORY:
+            out += {C.CATEGORY_DIGIT: '\\d', C.CATEGORY_NOT_DIGIT: '\\D', C.CATEGORY_WORD: '\\w', C.CATEGORY_NOT_WORD: '\\W',
+                    C.CATEGORY_SPACE: '\\s', C.CATEGORY_NOT_SPACE: '\\S'}[v]
+        else:
+            raise Fail(f'regex class element {k}')
+    return out + ']'
+
+
+class _SymMatch:
+    """a successful match over the whole symbolic text: truthy; group(0) is the text"""
+    def __init__(self, subject):
+        self.subject = subject
+
+    def __repr__(self):
+        return f'<match over {vrepr(self.subject)[:30]}>'
+
+    def group(self, *a):
+        raise Fail('groups of a match over a symbolic text')
 
 
 def wrap_re(r):
